@@ -80,12 +80,14 @@ def observe(c):
         return forms[k % len(forms)]()
     o = {"points": [], "states": [], "wholes": [], "trajs": [], "merged": [], "lookups": []}
     k = 0
+    # the last sample is also what index -1 names (the usual way to ask for the final state)
+    smp = lambda n: -1 if (n == N - 1 and c.get("last_as_minus_one")) else n
     for n in range(N):
         for s in range(S):
             for cell in range(C):
                 k += 1
                 try:
-                    r = tr.get_trajectory_point(sref(s, k), n, cref(cell, k))
+                    r = tr.get_trajectory_point(sref(s, k), smp(n), cref(cell, k))
                     chk(r.units)
                     o["points"].append(float(r.value))
                 except Exception as e:           # a valid reference that the accessor refuses: a value nothing equals
@@ -95,14 +97,14 @@ def observe(c):
         for s in range(S):
             k += 1
             try:
-                r = tr.get_state(sref(s, k), n)
+                r = tr.get_state(sref(s, k), smp(n))
                 chk(r.units)
                 o["states"].append([float(v) for v in r.value])
             except Exception as e:
                 o["states"].append([RAISED] * C)
                 o.setdefault("raised", []).append("get_state: %s: %s" % (type(e).__name__, str(e)[:80]))
         try:
-            r = tr.get_state(None, n)
+            r = tr.get_state(None, smp(n))
             chk(r.units)
             o["wholes"].append([float(v) for v in r.value])
         except Exception as e:
@@ -244,7 +246,7 @@ def gen_cases(rng, tier):
             tunits = ["µm", rng.choice(si.TIME), "molecule"]
             cases.append({"N": N, "S": S, "C": C, "desc": _desc(S, C, kind, rng), "data": data, "dunits": sysgen.rand_sys(rng),
                           "ts": ts, "tunits": tunits, "queries": rand_queries(rng, ts, tunits, strict), "strict": strict,
-                          "scribble": rng.random() < 0.4, "foreign_script": rng.random() < 0.35})
+                          "scribble": rng.random() < 0.4, "foreign_script": rng.random() < 0.35, "last_as_minus_one": rng.random() < 0.5})
     # grids with more than 255 cells and both strides above one (narrow coordinate types, fractional coordinates)
     for (w, h, d) in ((16, 17, 1), (7, 6, 7)):
         N, S, C = rng.randint(1, 2), rng.randint(1, 2), w * h * d
